@@ -13,3 +13,6 @@ import RotondaModel.Props.C04
 import RotondaModel.Model.Http
 import RotondaModel.Props.C12
 import RotondaModel.Props.C05
+import RotondaModel.Model.OutStream
+import RotondaModel.Props.C17
+import RotondaModel.Model.Rib
